@@ -110,8 +110,8 @@ theorem vector_ignores_disp3 (t : Decomposed R (V3 F) F) (d' v : V3 F) :
     ({ t with disp := d' } : Decomposed R (V3 F) F).transformVector ρ v = t.transformVector ρ v := rfl
 
 variable [Approx F]
-/-- `inverse_transform` is `None` exactly when the scale is (ulps-)zero; in particular for `0`
-if the scalar relation is reflexive -/
+/-- `inverse_transform` is `None` exactly when the scale is (ulps-)zero (only this iff is stated; that scale `0` is rejected,
+given `ulps_eq(0, 0)`, is `inverse_none_of_scale_zero3`, `Props/C08b.lean`) -/
 theorem inverse_none_iff3 (t : Decomposed R (V3 F) F) (ht : ok t.rot) :
     t.inverseTransform ρ = .none ↔ ulpsEqD t.scale 0 = true := by
   unfold Decomposed.inverseTransform
@@ -222,8 +222,8 @@ theorem vector_ignores_disp2 (t : Decomposed R (V2 F) F) (d' v : V2 F) :
     ({ t with disp := d' } : Decomposed R (V2 F) F).transformVector ρ v = t.transformVector ρ v := rfl
 
 variable [Approx F]
-/-- `inverse_transform` is `None` exactly when the scale is (ulps-)zero; in particular for `0`
-if the scalar relation is reflexive -/
+/-- `inverse_transform` is `None` exactly when the scale is (ulps-)zero (only this iff is stated; that scale `0` is rejected,
+given `ulps_eq(0, 0)`, is `inverse_none_of_scale_zero2`, `Props/C08b.lean`) -/
 theorem inverse_none_iff2 (t : Decomposed R (V2 F) F) (ht : ok t.rot) :
     t.inverseTransform ρ = .none ↔ ulpsEqD t.scale 0 = true := by
   unfold Decomposed.inverseTransform
